@@ -432,8 +432,9 @@ func checkNumeric(v protoreflect.Value, fd protoreflect.FieldDescriptor, rm prot
 		switch {
 		case isNaN:
 			okRange = false
-		case hi != nil && lo != nil && hi.Cmp(lo) <= 0 && !(hi.Cmp(lo) == 0 && hiIncl && loIncl):
-			// exclusive range: outside (hi, lo)
+		case hi != nil && lo != nil && hi.Cmp(lo) < 0:
+			// exclusive range (upper bound strictly below the lower one): outside (hi, lo);
+			// equal bounds stay a conjunction, as in the rules' own CEL definitions
 			okRange = below() || above()
 		default:
 			okRange = below() && above()
